@@ -74,3 +74,43 @@ def tree_id():
                 with open(p, 'rb') as fh:
                     h.update(fh.read())
     return h.hexdigest()[:16]
+
+
+_cleanup = None
+
+
+def cleanup_lines():
+    """relpath -> set of line numbers lexically inside `finally:` bodies and `except`
+    handlers of the library. Fault F5 is never delivered while a library frame is
+    executing such a line: "a function the library called raised" is a failure every
+    correct repair survives, "the library's own cleanup code failed" is not."""
+    global _cleanup
+    if _cleanup is not None:
+        return _cleanup
+    import ast
+    out = {}
+    root = os.path.join(REPO, 'emmet')
+    for dirpath, dirnames, filenames in os.walk(root):
+        if '__pycache__' in dirpath:
+            continue
+        for fn in filenames:
+            if not fn.endswith('.py'):
+                continue
+            path = os.path.join(dirpath, fn)
+            try:
+                with open(path, 'rb') as fh:
+                    tree = ast.parse(fh.read(), path)
+            except (SyntaxError, ValueError, OSError):
+                continue
+            lines = set()
+            for node in ast.walk(tree):
+                if isinstance(node, (ast.Try, getattr(ast, 'TryStar', ast.Try))):
+                    bodies = list(node.finalbody)
+                    for h in node.handlers:
+                        bodies.extend(h.body)
+                    for st in bodies:
+                        lines.update(range(st.lineno, (getattr(st, 'end_lineno', None) or st.lineno) + 1))
+            if lines:
+                out[os.path.relpath(path, root)] = lines
+    _cleanup = out
+    return out
